@@ -5,11 +5,14 @@ predicate, reward of every transition including the goal / terminal step, left-w
 RefMDP.tla, a qualitative model written from the Gymnasium sources with thresholds read at run time from the installed
 Gymnasium environment objects; for MuJoCo: kinematic consistency of handed-out states and internal book-keeping
 (reward = sum of reward components; terminal = not healthy) as atoms.
-NOT decided (no state-machine content, see DESIGN.md section 5): equality of vector fields and integrated trajectories
-with Gymnasium, and equality of MuJoCo observations / reward components / termination with Gymnasium v5."""
+Decided by differential comparison with the installed Gymnasium environments (gym_parity.py; atoms collected by the same
+trace specification, tolerances measured on the unchanged tree): vector fields, time steps, Acrobot limits, CartPole/Euler
+trajectories, and for all eleven MuJoCo environments observation (reset and step), reward, same-named reward components and
+termination from the same physical state and action."""
 from __future__ import annotations
 
 import copy
+import json
 import math
 
 import numpy as np
@@ -211,6 +214,29 @@ def mujoco_cases(ctx: Ctx) -> list:
     return out
 
 
+def parity_cases(ctx: Ctx, stats: dict, only: str | None = None, n=None, seed=None) -> list:
+    """differential comparison with the installed Gymnasium environments (see gym_parity.py)"""
+    from . import gym_parity
+    out = []
+    n_c, n_m = (n, n) if n else (ctx.pick(24, 120), ctx.pick(10, 40))
+    sd = ctx.seed if seed is None else seed
+    if only is None or only not in gym_parity.MUJOCO:
+        for name, atoms, st in gym_parity.classic_cases(n_c, sd):
+            if only in (None, name):
+                out.append(dict(ev="parity", env=name, **REGION_KEYS, term=False, rew_m=0, atoms={k: bool(v) for k, v in atoms.items()},
+                                _n=n_c, _seed=sd))
+                stats[name] = st
+    names = [m for m in gym_parity.MUJOCO if only in (None, m)]
+    for r in gym_parity.run_mujoco(names, n_m, sd, workers=ctx.pick(6, 11)) if names else []:
+        if "raised" in r:
+            out.append(dict(ev="parity", env=r["env"], **REGION_KEYS, term=False, rew_m=0, atoms={"RunsWithoutRaising": False}, _n=n_m, _seed=sd))
+            stats[r["env"]] = {"raised": r["raised"]}
+        else:
+            out.append(dict(ev="parity", env=r["env"], **REGION_KEYS, term=False, rew_m=0, atoms=r["atoms"], _n=n_m, _seed=sd))
+            stats[r["env"]] = r["stats"]
+    return out
+
+
 def run(ctx: Ctx) -> Report:
     rep = Report()
     res = tlc.run("mc/MC_RefMDP.tla", workdir=ctx.work, workers=4, timeout=600)
@@ -234,6 +260,11 @@ def run(ctx: Ctx) -> Report:
     for ev in mujoco_cases(ctx):
         evs.append(ev)
         cases.append({"mujoco": ev["env"]})
+    pstats = {}
+    for ev in parity_cases(ctx, pstats):
+        evs.append(ev)
+        cases.append({"parity": ev["env"], "n": ev.pop("_n"), "seed": ev.pop("_seed")})
+    rep.parts["differential_vs_gymnasium"] = pstats
     v = tracecheck.validate(ctx, SPEC, [{"ev": e} for e in evs], "refmdp", procs=ctx.pick(1, 4))
     rep.states += v.distinct
     rep.transitions += v.generated
@@ -264,8 +295,10 @@ def run(ctx: Ctx) -> Report:
     if 0 not in tracecheck.validate(ctx, SPEC, [{"ev": m}], "refmdp_selftest").rejected:
         raise Machinery("C17 binding self-test failed")
     rep.samples.append({"kind": "threshold probe", **evs[good]})
-    rep.undecided += ["equal vector fields and integrated trajectories (CartPole/Euler vs Gymnasium)",
-                      "MuJoCo observation / reward components / termination equal to Gymnasium v5 from the same physical state"]
+    rep.undecided += ["parity with Gymnasium is a numeric comparison judged by the harness (tolerances in gym_parity.py), collected as atoms; "
+                      "info keys that exist on one side only (naming differences) are not compared",
+                      "contact-force dependent quantities (Ant, Humanoid, HumanoidStandup) are compared by Gymnasium's formula on lerax's own "
+                      "forces and by presence, not value by value (MJX and MuJoCo C solve contacts differently)"]
     rep.assumptions += ["thresholds are read from the installed Gymnasium environment objects; successors within 1e-5 of a threshold are skipped as indeterminate"]
     return rep
 
@@ -279,6 +312,12 @@ def replay(ctx: Ctx, driver: str, case: dict) -> Report:
         evs = [e for e in limit_cases(ctx) if e["env"] == case["limits"]]
     elif "reset" in case:
         evs = [e for e in reset_cases(ctx) if e["env"] == case["reset"]]
+    elif "parity" in case:
+        st = {}
+        evs = parity_cases(ctx, st, only=case["parity"], n=case.get("n"), seed=case.get("seed"))
+        for e in evs:
+            e.pop("_n", None), e.pop("_seed", None)
+        print(json.dumps(st, indent=1)[:3000])
     else:
         evs = [e for e in mujoco_cases(ctx) if e["env"] == case["mujoco"]]
     v = tracecheck.validate(ctx, SPEC, [{"ev": e} for e in evs], "replay")
